@@ -37,6 +37,7 @@ LEAVES = [
     ("factory", ("optf", "A", 7), "h", [A3]),
     ("listval", ("opt", "M"), "l", [("M", [ABSENT, [1, 2], [2]])]),
     ("domain", ("optdom", "A", None, ("vals", [1, 2])), "h", [("A", [ABSENT, 1, 3])]),
+    ("domain_opt", ("optdom", "A", ("val", 1), ("term", ("opt", "DOM", ("val", [1, 3])))), "h", [("A", [ABSENT, 1, 3]), ("DOM", [ABSENT, [1], [1, 3]])]),
 ]
 LEAF_BY_NAME = {l[0]: l for l in LEAVES}
 
